@@ -60,6 +60,16 @@ def c02(run):
         n = good(seq, tz)
         extra.append({"k": "C02", "tZero": tz, "seq": seq, "allowedN": [n],
                       "predicted": {"n": n, "nilerr": n == ln, "cls": "?"}, "sampled": True})
+    # hand-built: (1) elements dated 8 s per element ahead of the local clock (the first is within the allowed drift, the second
+    # is from the future whatever its predecessor's time is); (2) a trusted header of the highest possible height
+    for pre in range(0, 4):
+        for na in range(2, 5):
+            seq = ["ok1"] * pre + ["ahead"] * na
+            extra.append({"k": "C02", "tZero": False, "seq": seq, "allowedN": [pre + 1],
+                          "predicted": {"n": pre + 1, "nilerr": False, "cls": "?"}, "sampled": True})
+    for ln in range(1, 5):
+        extra.append({"k": "C02", "tZero": False, "tMax": True, "seq": ["ok1"] * ln, "allowedN": [0],
+                      "predicted": {"n": 0, "nilerr": False, "cls": "?"}, "sampled": True})
     # long ranges (33..70 headers) with one defect at every position: whatever is done per chunk, per batch or per
     # goroutine inside VerifyRange must not depend on where in the range the defect sits
     nlong = 0
